@@ -94,6 +94,20 @@ Proof. exact set_fragment_reparses. Qed.
    accepts ONLY what CoreDID::parse accepts, with the same components - so every route yields the verbatim, decomposable value *)
 Theorem C10_did_unguarded_route_sound : forall s m i, no_pct s = true -> core_did_from_base s = Ok (m, i) -> core_did_parse s = Ok (m, i).
 Proof. exact core_did_from_base_sound. Qed.
+(* DIDUrl::join: a segment that is not a relative path / query / fragment is refused; otherwise the DID part is never touched and whatever is
+   returned (percent-free) is well formed and re-parses to ITSELF; join("#fragment"), the dominant use, is exactly the receiver with its
+   fragment replaced.  (The third-party setters that rebuild the joined string are abstracted at component level; the correspondence run
+   compares the string form of every joined value, dot-segment removal included.) *)
+Theorem C10_join_sound : forall u seg j, wf_url u -> did_url_join u seg = Ok j ->
+  u_did j = u_did u /\ u_method j = u_method u /\ u_mid j = u_mid u
+  /\ (no_pct (did_url_to_string j) = true -> wf_url j /\ did_url_parse (did_url_to_string j) = Ok j).
+Proof. exact join_sound. Qed.
+Theorem C10_join_rejects_non_relative : forall u seg,
+  (match seg with c :: _ => negb ((c =? 47) || (c =? 63) || (c =? 35)) | [] => true end) = true -> did_url_join u seg = Err EPath.
+Proof. exact join_rejects_non_relative. Qed.
+Theorem C10_join_fragment : forall u f, wf_url u -> f <> [] -> forallb char_query f = true ->
+  did_url_join u (35 :: f) = Ok (with_frag u (Some (35 :: f))).
+Proof. exact join_fragment. Qed.
 (* equality, ordering and hashing agree: Eq holds exactly when Ord answers Equal, Ord is antisymmetric, equal values feed the same bytes
    to the hasher, and on well-formed values (all that parsing, setting and joining produce outside K_pct) the string form determines the value,
    so the four relations coincide *)
@@ -150,3 +164,6 @@ Print Assumptions C10_eq_iff_ord_equal.
 Print Assumptions C10_ord_antisymmetric.
 Print Assumptions C10_eq_same_hash.
 Print Assumptions C10_eq_iff_same_string.
+Print Assumptions C10_join_sound.
+Print Assumptions C10_join_rejects_non_relative.
+Print Assumptions C10_join_fragment.
